@@ -33,13 +33,20 @@ def settle(chk, stream, broken, dis, crash, ofail, describe=lambda r: r["ops"]):
        crash  : harness aborted (sanitizer, timeout, signal)
        ofail  : property oracle failed on the real code [(result, text)]"""
     prop = chk.prop
-    for r in crash[:4]:
+    n0 = len(chk.violations)
+    for r in crash:
+        if len(chk.violations) - n0 >= 4:
+            break
         chk.violation("crash:" + stream, "implementation aborted (sanitizer report, signal or time-out)",
                       {"stream": stream, "ops": describe(r), "exit": r["rc_c"], "stderr": r.get("err_c", "")[-2500:]}, True)
-    for r, o in ofail[:4]:
+    for r, o in ofail:
+        # every oracle failure is looked at: those listed as known findings print their KNOWN-FINDING line and do not count,
+        # so a listed finding can never hide a new one behind it
+        if len(chk.violations) - n0 >= 4:
+            break
         chk.violation("oracle:" + stream + ":" + o.split(": ")[0], "property oracle failed on the implementation: " + o,
                       {"stream": stream, "ops": describe(r), "observed": r["c"], "model": r.get("m")}, True)
-    have_input = bool(crash or ofail)
+    have_input = len(chk.violations) > n0          # a NEW violation with a failing input (known findings do not count)
     for r, d in dis[:4]:
         # a disagreement without an oracle failure: the correspondence no longer checks
         if have_input:
